@@ -12,6 +12,7 @@ import (
 	"encoding/hex"
 	"fmt"
 	"math"
+	"os"
 	"runtime/debug"
 	"sort"
 	"strings"
@@ -25,8 +26,10 @@ import (
 	"github.com/uber/kraken/lib/hashring"
 	"github.com/uber/kraken/utils/stringset"
 
+	"verif/checks/c21/klog"
 	"verif/evid"
 	_ "verif/quiet"
+	"verif/vrt"
 )
 
 // ---------------------------------------------------------------------------
@@ -550,7 +553,15 @@ func companions(mem []int, n int) (same, diff []int) {
 }
 
 func main() {
+	e1WorkerMain() // E1 scenario worker (never returns in that case)
+	if os.Getenv("VRT_FREE") != "" {
+		vrt.WorkerMain(e1FreeHarnesses()) // race pass: E1 bodies free-running under -race
+	}
 	run := evid.New("C21", "exploration")
+	if p := run.ReplayPath(); p != "" {
+		e1Replay(p)
+		run.Fatal(fmt.Errorf("--replay: %s is not an E1 violation file (E4 violations carry their whole case in the file)", p))
+	}
 	debug.SetGCPercent(400)
 	for n := 0; n <= 70; n++ {
 		in := make([]byte, n)
@@ -612,11 +623,24 @@ func main() {
 		wg.Wait()
 	}
 
-	run.Rule = "one evaluation = one real Ring.Locations call; enumerated: every membership of the tier x all 65536 shards x (every insertion permutation of the membership with all members as replicas + MaxReplica 1..3 x every healthy subset incl. none); a case is distinct/non-trivial when it is a different (MaxReplica, healthy subset, statement case, resulting replica list) or a different full rank order, for memberships of >= 2 hosts"
+	run.Rule = "E4 part: one evaluation = one real Ring.Locations call; enumerated: every membership of the tier x all 65536 shards x (every insertion permutation of the membership with all members as replicas + MaxReplica 1..3 x every healthy subset incl. none); a case is distinct/non-trivial when it is a different (MaxReplica, healthy subset, statement case, resulting replica list) or a different full rank order, for memberships of >= 2 hosts. " +
+		"E1 part (Locations concurrent with Refresh): one evaluation = one complete interleaved execution on a fresh real ring; enumerated: every ring state (non-empty membership of a 4-host pool, every healthy subset; 80 states) as start state built by New x every single change one Refresh can find (nothing, one member's health flipped, one member gone, one host added healthy/unhealthy, one member replaced by a healthy/unhealthy newcomer) x MaxReplica x representative shards (one per rank order of the pool's hosts) x every interleaving, up to the preemption bound, of one refresher thread (scheduling points: hostlist.Resolve, healthcheck.Run, Watcher.Notify, every lock operation of lib/hashring) with the lookup threads; quick: MaxReplica 1..2, 4 shards (every host at every rank once), one lookup thread with two Locations calls, preemption bound 2; thorough: MaxReplica 1..3 with all 24 rank orders and ALL interleavings, plus two lookup threads (bound 3), plus two-Refresh histories (bound 2); a case is distinct/non-trivial when at least one lookup overlaps a Refresh and (change kind, MaxReplica, per-lookup observation: overlapping or not, invoked after Watcher.Notify, which ring state's replica set was returned / states indistinguishable) differs"
 	run.Assume("small-scope: memberships from a fixed universe of realistic host:port names: quick 12 memberships of 1..4 of 6 hosts; thorough all 162 subsets of size 1..4 of 8 hosts plus the 6 five-host subsets of the first 6; MaxReplica 1..3 (and = membership size for the order sweep); digest = shard + one of two fixed 60-hex tails")
 	run.Assume("health filter is a fake returning exactly the chosen subset (also the empty set, also for a single member); hostlist is a fake returning the membership as a freshly built map")
 	run.Assume("host discovery order cannot be enumerated through Go map iteration; it is injected by re-ordering the hrw nodes that the real Refresh created (overlay-added accessor VerifSetNodeOrder), then the real Locations runs")
 	run.Assume("reference score: own murmur3-x64-128 (cross-checked at startup against spaolacci/murmur3), low 53 bits / 2^53 with rehash on zero, -100/ln(f); reference and implementation both use math.Log of the Go runtime; where reference scores tie the observed order of the first permutation is taken as the rank order")
+	run.Assume("E1: one refresher at a time (kraken calls Refresh from New and from the single Monitor goroutine only); sequentially consistent memory (cooperative scheduler: thread switches only at lock operations of lib/hashring / lib/hrw and at the environment calls; the thorough tier additionally runs the same bodies free under the race detector); Locations depends on the digest only through the rank order of the members, so one shard per rank order of the 4 pool hosts stands for all 65536 (the E4 part sweeps them all on quiescent rings)")
+	run.Assume("E1 oracle: a Locations answer must be the statement's replica set (own reference) of a ring state that was current between the call's invocation and its return (the state before or after a Refresh in progress: the statement says 'current members' and does not decide which); answers of calls ordered in real time never go back to an earlier state; log.Fatal inside lib/hashring (intercepted through an overlay-substituted utils/log) is a violation, as the process would end without an answer")
+
+	klog.SetFatalHook(func(msg string) {
+		run.Violation("Locations terminates the process through log.Fatal ("+msg+"; quiescent ring, E4 sweep)", map[string]interface{}{"msg": msg})
+		os.Exit(1)
+	})
+	e1Cap := 40 * time.Second
+	if run.Thorough() {
+		e1Cap = 8 * time.Minute
+	}
+	e1Phase(run, e1Cap)
 
 	deadline := time.Now().Add(55 * time.Second)
 	if run.Thorough() {
